@@ -316,6 +316,11 @@ class KeyedSet(Generic[ItemType, KeyType], MutableSet, KeyedBase):  # pylint: di
 
     # MutableSet implementation
 
+    # What the key function may raise when handed something that is not an
+    # item (e.g. an absent key): `lambda i: i.name` -> AttributeError,
+    # `lambda t: t[0]` -> TypeError / IndexError, `lambda d: d["id"]` -> KeyError.
+    _NOT_AN_ITEM = (TypeError, AttributeError, LookupError)
+
     def __contains__(self, item_or_key):
         # Check whether item_or_key exists as a key
         try:
@@ -332,7 +337,7 @@ class KeyedSet(Generic[ItemType, KeyType], MutableSet, KeyedBase):  # pylint: di
                     or self.enforce_item_equivalence
                     and item_or_key == self._dict[key]
                 )
-        except TypeError:
+        except self._NOT_AN_ITEM:
             pass
         return False
 
@@ -371,7 +376,7 @@ class KeyedSet(Generic[ItemType, KeyType], MutableSet, KeyedBase):  # pylint: di
                 and value == self._dict[key]
             ):
                 del self._dict[key]
-        except TypeError:
+        except self._NOT_AN_ITEM:
             pass
 
     def _from_iterable(self, iterable):
@@ -419,7 +424,10 @@ class KeyedSet(Generic[ItemType, KeyType], MutableSet, KeyedBase):  # pylint: di
                 return self._dict[key]
         except TypeError:
             pass
-        item_key = self.key(key)
-        if item_key in self._dict:
-            return self._dict[item_key]
+        try:
+            item_key = self.key(key)
+            if item_key in self._dict:
+                return self._dict[item_key]
+        except self._NOT_AN_ITEM:
+            pass
         raise KeyError(key)
